@@ -43,11 +43,8 @@ def _inv_case(ctx, struct, ops, cplx, subset, prestate, legflags, consume):
     W = C.World(ctx, struct, cplx=cplx, subset=subset, prestate=prestate, legflags=legflags)
     name, v = ops[ctx.choice('op', len(ops))]
     tag = name if v == 'd' else f'{name}/{v}'
-    try:
-        sc = C.OPS[name].build(W, v)
-    except C.Skip:
-        ctx.note('skipped')
-        ctx.prove(True, 'scenario not applicable')
+    sc = C.build_scenario(ctx, W, name, v)
+    if sc is None:
         return
     for k, o in enumerate(sc.operands):
         C.check_invariants(ctx, o, f'pre-state operand {k}', sanity=False)
@@ -98,7 +95,7 @@ ALL_CONSUMERS = ('add', 'radd', 'tensordot', 'inner', 'sort_legcharge', 'legsort
 def CASES(tier, seed):
     cases = []
     quick = tier == 'quick'
-    opsA = [(n, v) for n, s in C.OPS.items() if 'A' in s.tiers for v in P1._variants(s, tier)]
+    opsA = [(n, v) for n, s in C.OPS.items() if 'A' in s.tiers for v in P1._variants(s, tier) if (n, v) not in C.TIER_A_EXCLUDED]
     opsB = [(n, v) for n, s in C.OPS.items() if 'B' in s.tiers for v in s.variants]
     OA = dict(max_paths=80000, max_wall_s=220 if quick else 1600, validate_paths=2, hard_timeout_s=235 if quick else 1750)
     structsA = P1.structs_A(tier)
